@@ -98,6 +98,10 @@ def seeds(rng, kind):
             spec['b9seed'] = 777
             image, info, kwargs = nc.build(spec)
             out.append((f'ncch#{t}', image, word_fields(0x100, 0x200) + [(0x188 + i, 1, f'flag{i}') for i in range(8)], False, None))
+            if t == 0:
+                # the declared size of the container (media units, header offset 0x104) far beyond what the file holds
+                for v in (0x00080000, 0x7FFFFFFF, 0xFFFFFFFF):
+                    out.append((f'ncch#0-content-size-{v:#x}', patch(image, 0x104, 4, v), [], False, None))
     elif kind in ('cia', 'cci'):
         pyenv.install_fake_boot9(777)
         from pyctr.crypto import engine as E
